@@ -368,7 +368,7 @@ white space, `)`), UNICODE-RANGE (`U+`/`u+`, one to six hex digits or `?`), COMM
 `*/`) and CDC. `render2` joins the lexemes with single spaces; `expectedAll` lists (type, value) with an S token between
 neighbours; a COMMENT token is not yielded when comments are off. S (any run of white space) and INVALID (which a
 space does not end) have class theorems of their own.
-Still on the classification oracle only: names with escapes or non-ASCII code points, signed or fractional PERCENTAGE / DIMENSION,
+Still on the classification oracle only: names with escapes or non-ASCII code points,
 unquoted URLs with escapes. -/
 
 /-- **T5.6 for all token classes** (plain lexemes): a text produced from grammar tokens of the classes NUMBER,
@@ -422,8 +422,8 @@ theorem pattern_consumes_its_classes (cs : List (Nat × Nat)) (r : Re) (h : cons
 
 /-- numbers with sign and fraction, at the level of the number pattern (`{num}` = `reNUMBER`): an optional sign,
 digits (possibly none), `.`, at least one digit is matched exactly when no digit follows.
-(`number_fraction_class` is the scan-level class theorem; `number_signed_class` the one for signed integers; the PERCENTAGE / DIMENSION
-analogues are not done.) -/
+(`number_fraction_class` is the scan-level class theorem; `number_signed_class` the one for signed integers,
+`percentage_signed_class` / `dimension_signed_class` the PERCENTAGE / DIMENSION analogues.) -/
 theorem number_fraction_first (sg ip : Cps) (d : Nat) (ds stop : Cps) (hsg : IsSign sg)
     (hip : ∀ c ∈ ip, isDigit c = true) (hd : ∀ c ∈ d :: ds, isDigit c = true)
     (hs : HeadIn (fun c => isDigit c = false) stop) :
@@ -444,6 +444,24 @@ theorem number_signed_class (doC : Bool) (sg : Cps) (d : Nat) (ds stop : Cps) (h
     (hd : ∀ c ∈ d :: ds, isDigit c = true) (hs : Sep stop) :
     scan false doC (sg ++ (d :: ds ++ stop)) productions = .hit "NUMBER" (sg.length + (d :: ds).length) :=
   scan_number_int doC sg d ds stop hsg hd hs
+
+/-- **PERCENTAGE class with sign and fraction**: a number (optional sign; integer, or digits `.` digits) and `%`,
+whatever follows -/
+theorem percentage_signed_class (doC : Bool) (sg : Cps) (b : NumBody) (rest : Cps) (hsg : IsSign sg) (hb : b.WF) :
+    scan false doC (sg ++ (b.text ++ 37 :: rest)) productions =
+      .hit "PERCENTAGE" (sg.length + b.text.length + 1) :=
+  scan_percentage_gen doC sg b rest hsg hb
+
+/-- **DIMENSION class with sign and fraction**: such a number and a plain identifier as unit, followed by the end of
+the text or a space -/
+theorem dimension_signed_class (doC : Bool) (sg : Cps) (b : NumBody) (c : Nat) (cs stop : Cps) (hsg : IsSign sg)
+    (hb : b.WF) (hc : inR identStart c = true) (hcs : ∀ x ∈ cs, inR identRest x = true) (hst : Sep stop) :
+    scan false doC (sg ++ (b.text ++ (c :: cs ++ stop))) productions =
+      .hit "DIMENSION" (sg.length + b.text.length + (c :: cs).length) :=
+  scan_dimension_gen doC sg b c cs stop hsg hb hc hcs hst
+
+example : (NumBody.frac [49] 53 []).WF ∧ (NumBody.int 49 [48]).WF ∧ (NumBody.frac [] 53 []).text = [46, 53] := by
+  decide
 
 /-- `-12.50 ` and `.5` -/
 example : reNUMBER.first ([45] ++ ([49, 50] ++ 46 :: 53 :: ([48] ++ [32]))) = some 6 ∧
